@@ -38,6 +38,150 @@ fn hexlits(src: &str) -> Vec<Vec<u8>> {
     out
 }
 
+const SHAPES: [&str; 12] = ["header-int-labels", "header-text-labels", "key-params", "claims", "crit-labels", "key-ops", "signers", "recipients",
+                            "keyset", "kdf-priv-slots", "counter-signatures", "sign1-protected-map"];
+
+fn head(mj: u8, n: usize, o: &mut Vec<u8>) {
+    if n < 24 {
+        o.push(mj << 5 | n as u8);
+    } else if n < 256 {
+        o.extend_from_slice(&[mj << 5 | 24, n as u8]);
+    } else if n < 65536 {
+        o.push(mj << 5 | 25);
+        o.extend_from_slice(&(n as u16).to_be_bytes());
+    } else {
+        o.push(mj << 5 | 26);
+        o.extend_from_slice(&(n as u32).to_be_bytes());
+    }
+}
+fn text3(i: usize, o: &mut Vec<u8>) {
+    // distinct 4-letter texts
+    o.push(0x64);
+    o.extend_from_slice(&[b'a' + (i % 26) as u8, b'a' + ((i / 26) % 26) as u8, b'a' + ((i / 676) % 26) as u8, b'a' + ((i / 17576) % 26) as u8]);
+}
+/// (entry point, wire) of a wide structure with n elements
+fn wide(shape: &str, n: usize) -> (&'static str, Vec<u8>) {
+    let mut o = vec![];
+    match shape {
+        "header-int-labels" => {
+            head(5, n, &mut o);
+            for i in 0..n {
+                head(0, 100 + i, &mut o);
+                o.push(1);
+            }
+            ("Header", o)
+        }
+        "header-text-labels" => {
+            head(5, n, &mut o);
+            for i in 0..n {
+                text3(i, &mut o);
+                o.push(1);
+            }
+            ("Header", o)
+        }
+        "key-params" => {
+            head(5, n + 1, &mut o);
+            o.extend_from_slice(&[1, 1]);
+            for i in 0..n {
+                head(0, 100 + i, &mut o);
+                o.push(1);
+            }
+            ("CoseKey", o)
+        }
+        "claims" => {
+            head(5, n, &mut o);
+            for i in 0..n {
+                text3(i, &mut o);
+                o.push(1);
+            }
+            ("ClaimsSet", o)
+        }
+        "crit-labels" => {
+            o.extend_from_slice(&[0xa1, 2]);
+            head(4, n, &mut o);
+            for i in 0..n {
+                text3(i, &mut o);
+            }
+            ("Header", o)
+        }
+        "key-ops" => {
+            o.extend_from_slice(&[0xa2, 1, 1, 4]);
+            head(4, n, &mut o);
+            for i in 0..n {
+                text3(i, &mut o);
+            }
+            ("CoseKey", o)
+        }
+        "signers" => {
+            o.extend_from_slice(&[0x84, 0x40, 0xa0, 0xf6]);
+            head(4, n, &mut o);
+            for _ in 0..n {
+                o.extend_from_slice(&[0x83, 0x40, 0xa0, 0x40]);
+            }
+            ("CoseSign", o)
+        }
+        "recipients" => {
+            o.extend_from_slice(&[0x84, 0x40, 0xa0, 0xf6]);
+            head(4, n, &mut o);
+            for _ in 0..n {
+                o.extend_from_slice(&[0x83, 0x40, 0xa0, 0xf6]);
+            }
+            ("CoseEncrypt", o)
+        }
+        "keyset" => {
+            head(4, n, &mut o);
+            for _ in 0..n {
+                o.extend_from_slice(&[0xa1, 1, 1]);
+            }
+            ("CoseKeySet", o)
+        }
+        "kdf-priv-slots" => {
+            head(4, n + 4, &mut o);
+            o.extend_from_slice(&[1, 0x83, 0xf6, 0xf6, 0xf6, 0x83, 0xf6, 0xf6, 0xf6, 0x82, 0x18, 0x80, 0x40]);
+            for _ in 0..n {
+                o.extend_from_slice(&[0x41, 7]);
+            }
+            ("CoseKdfContext", o)
+        }
+        "counter-signatures" => {
+            o.extend_from_slice(&[0xa1, 7]);
+            head(4, n, &mut o);
+            for _ in 0..n {
+                o.extend_from_slice(&[0x83, 0x40, 0xa0, 0x40]);
+            }
+            ("Header", o)
+        }
+        _ => {
+            // sign1-protected-map
+            let (_, inner) = wide("header-int-labels", n);
+            o.push(0x84);
+            head(2, inner.len(), &mut o);
+            o.extend_from_slice(&inner);
+            o.extend_from_slice(&[0xa0, 0xf6, 0x40]);
+            ("CoseSign1", o)
+        }
+    }
+}
+/// best of three: seconds to decode the wide structure and run the follow-up operations on it
+fn time_shape(shape: &str, n: usize) -> f64 {
+    let (ty, w) = wide(shape, n);
+    let mut best = f64::MAX;
+    for _ in 0..3 {
+        let t = std::time::Instant::now();
+        let r = coset_verif_harness::gen::lean_decode_and_follow(ty, "", "slice", &w);
+        let dt = t.elapsed().as_secs_f64();
+        if let Some((accepted, _)) = r {
+            if !accepted {
+                return 0.0; // the shape is meant to be accepted; a rejection is not this probe's business
+            }
+        }
+        if dt < best {
+            best = dt;
+        }
+    }
+    best
+}
+
 fn main() {
     silence_panics();
     let seed: u64 = arg("--seed").and_then(|s| s.parse().ok()).unwrap_or(1);
@@ -85,7 +229,27 @@ fn main() {
         let b: Vec<u8> = (0..len).map(|_| rng.byte()).collect();
         fuzz_one(&mut ctx, &b, "random");
     }
+    // 4. scaling (the resource clause: time proportional to the input).  Each wide shape is decoded (with the follow-up
+    //    operations) at n and 4n elements; a decoder whose cost grows quadratically shows a ratio near 16 instead of 4.
+    //    Reported only when BOTH the ratio is far from linear AND the larger input takes more than a second (so that a
+    //    loaded machine, which slows both measurements alike, cannot raise an alarm).
+    let (n1, n2) = (16_000usize, 64_000usize);
+    let mut scaling = vec![];
+    for shape in SHAPES {
+        let t1 = time_shape(shape, n1);
+        let t2 = time_shape(shape, n2);
+        let ratio = if t1 > 0.0 { t2 / t1 } else { 0.0 };
+        scaling.push(serde_json::json!({"shape": shape, "n": [n1, n2], "seconds": [t1, t2], "ratio": ratio}));
+        ctx.evaluations += 2;
+        ctx.judged += 1;
+        if t2 > 1.0 && ratio > 8.0 {
+            let v = serde_json::json!({"kind": "scaling", "props": ["C01"], "shape": shape, "n": [n1, n2], "seconds": [t1, t2], "ratio": ratio,
+                                       "how": "wire built by harness/src/bin/fuzz.rs::wide(shape, n); decoded by the entry point of that shape with follow-ups"});
+            ctx.mismatch("C01", &v, "decode-time-not-proportional-to-input", serde_json::json!({"ratio": ratio, "seconds_at_4n": t2}));
+        }
+    }
     let mut s = ctx.summary();
+    s["scaling"] = serde_json::json!(scaling);
     s["extra"] = serde_json::json!({"seeds_from_repo_tests": seeds.len(), "mutations": n_mut, "random": n_rand, "entry_points": entry_points().len()});
     s["vectors"] = serde_json::json!(ctx.distinct.len());
     s["samples"] = serde_json::json!([{"exhaustive": "all byte strings of length 0, 1, 2"}, {"seed_example_hex": seeds.get(0).map(|x| coset_verif_harness::abs::hex(x))}]);
